@@ -1246,6 +1246,14 @@ class Quantized(Sampler):
     ):
         values = self.sampler.sample(domain, spec, size, random_state)
         quantized = np.round(np.divide(values, self.q)) * self.q
+        # Rounding to a multiple of ``q`` can leave the domain if its bounds
+        # are not multiples of ``q``. Move such values back to the closest
+        # multiple inside the bounds (or to the bounds, if there is none)
+        lower = np.ceil(np.divide(domain.lower, self.q)) * self.q
+        upper = np.floor(np.divide(domain.upper, self.q)) * self.q
+        if lower > upper:
+            lower, upper = domain.lower, domain.upper
+        quantized = np.clip(quantized, lower, upper)
         if not isinstance(quantized, np.ndarray):
             return domain.cast(quantized)
         return list(quantized)
